@@ -41,3 +41,30 @@ Definition count_opens (e : N) (ls : list (list N)) : N :=
 Example one_stream_per_request_refuted :
   exists os, reuse_outs = Some os /\ count_opens 0 reuse_labels = 2 /\ count_accepts 1 reuse_labels os = 3.
 Proof. vm_compute. eexists. repeat split. Qed.
+
+(* Second witness (C06): a Push of the earlier incarnation, still in flight when the requester
+   redraws the id, is answered by the requester with Reset and tears down the freshly opened
+   stream: the acceptor's read on the NEW stream (label 16) returns end-of-stream although the
+   requester neither shut it down nor dropped it, and the byte the requester then writes is lost. *)
+Definition leak_cfg : list N := [1; 4; 1; 4; 1; 0; 3; 2; 7; 7; 4; 1; 4; 1; 0; 3; 0].
+Definition leak_labels : list (list N) := [[10; 0; 80; 1; 104]; [18; 0]; [12; 1]; [18; 1]; [11; 0; 0]; [13; 1; 0; 1; 88]; [17; 0; 0]; [18; 0]; [17; 1; 0]; [10; 0; 80; 1; 104]; [18; 0]; [18; 1]; [18; 1]; [11; 0; 1]; [12; 1]; [18; 0]; [15; 1; 1; 4]; [13; 0; 1; 1; 89]; [18; 0]; [18; 1]; [15; 0; 1; 4]].
+Definition leak_outs : option (list lout) :=
+  match parse_cfg 0 (tl leak_cfg) with
+  | Some (a, r1) =>
+      match parse_cfg 1 r1 with
+      | Some (b, _) =>
+          match parse_labels 1000 (flat_map (fun l => len l :: l) leak_labels) with
+          | Some ls => Some (snd (brun (mkBsys (mkSys a b [] []) []) ls))
+          | None => None
+          end
+      | None => None
+      end
+  | None => None
+  end.
+
+Example stale_push_kills_new_stream :
+  exists os, leak_outs = Some os /\
+    nth_error leak_labels 16 = Some [15; 1; 1; 4] /\ option_map o_res (nth_error os 16) = Some [0; 0] /\   (* B reads EOF on the new stream *)
+    option_map o_res (nth_error os 17) = Some [0; 1] /\                                                      (* A's write is accepted ... *)
+    option_map o_res (nth_error os 20) = Some [0; 0].                                                          (* ... and A reads EOF: torn down *)
+Proof. vm_compute. eexists. repeat split. Qed.
